@@ -610,7 +610,14 @@ func (x *dexec) writeBlock(blk lz.Block, firstBad int, kind string, retry bool) 
 			wb = 1 << 24
 		}
 		x.armWriterLimit(wb)
-		pn, hang := x.call(x.budget(sumBytes%(1<<24)), func() {
+		// work is bounded by the literals handed over plus one buffer per
+		// sequence, whatever lengths the sequences claim (a claimed length of
+		// 2^24 must not buy a spinning call half an hour of budget)
+		work := len(call.Literals) + (len(call.Sequences)+1)*x.bs
+		if sumBytes >= 0 && sumBytes < work {
+			work = sumBytes
+		}
+		pn, hang := x.call(x.budget(work), func() {
 			if x.buf != nil {
 				n, k, l, err = x.buf.WriteBlock(call)
 			} else {
@@ -770,7 +777,11 @@ func (x *dexec) doWMatch(op *Op) string {
 	}
 	var n int
 	var err error
-	pn, hang := x.call(x.budget(int(m%(1<<24))), func() { n, err = x.buf.WriteMatch(clampU32(m), o) })
+	mwork := x.bs // all or nothing: a match longer than the buffer is refused
+	if int64(m) >= 0 && int64(m) < int64(mwork) {
+		mwork = int(m)
+	}
+	pn, hang := x.call(x.budget(mwork), func() { n, err = x.buf.WriteMatch(clampU32(m), o) })
 	if pn != "" {
 		x.libPanic(fmt.Sprintf("WriteMatch(m=%d,o=%d)", m, o), pn, hang)
 	}
